@@ -152,6 +152,29 @@ CLAIMED = {
          "Trusted: python ast parser; sa/fold.py; model of np.swapaxes/np.flip as signed permutations. Not decided: nothing numerical is involved."),
 }
 
+# clauses added after the first version of the rules (DESIGN.md 7.5); appended to the level text
+ADDED = {
+ "C01": "Also: coordinate/voxel/coordinate_vector are evaluated column-wise on symbolic points per dimension (loop and vectorised forms) against the table; the layout helpers fix the same orientation as the table (shared C20.b).",
+ "C02": "Also: the selection is not reshaped after normalisation; CoordinateSystem.voxel/coordinate agree with the axis table (shared C01.b).",
+ "C03": "Also: geometry constructors do not modify their arguments; an array weight in darsia.weight is broadcast over all voxels.",
+ "C04": "Also: snapshots used for fallback are refreshed per iteration; a reused factorisation belongs to the matrix solved; each stopping criterion uses the tolerance of its own option; face_to_cell interpolates each component along its own axis (shared C06.c).",
+ "C05": "Also: the cv2.EMD signature is in physical units with the voxel sizes on their own axes; shared C06.c.",
+ "C06": "Also: scalar / vector / tensor cell quantities select the scalar, component o, diagonal entry (o,o) for orientation o; the tangential operator returns one block per direction, concatenated in order.",
+ "C08": "Also: the solution vector is written only through the solve / back-substitution index maps; cg stops on a relative criterion by default; callers reuse a factorisation only for the matrix it was built for (shared C04.g).",
+ "C09": "Also: _src / _dst roles are not mixed in conversions, keyword arguments and attribute stores; truncating casts on the pull-back path (shared C01.d).",
+ "C10": "Also: result arrays are not kept on the correction object; Image keeps time_num equal to the number of slices under slicing and append (shared C02.c/d).",
+ "C11": "Also: the superposition canvas is the bounding box of the inputs with dimensions in matrix order; parity and half length of the coarsening step come from the running array.",
+ "C12": "Also: __call__ is find_balance followed by the class's own apply_balance; every return of find_balance has stored the fit.",
+ "C13": "Also: baseline and baseline collection are taken from the same (converted) list; metadata() -> constructor is a faithful round trip (shared C18.a).",
+ "C14": "Also: CombinedModel forwards exactly the extra arguments a part accepts (argument-count idiom table); the kernel matrix is filled on the full index square including the diagonal; factored-out kernel constants are re-added times the sum of weights.",
+ "C15": "Also (level other): the consumer evaluates the field at the rule's own points through face_to_cell (shared C06.c).",
+ "C16": "Also: update_params stores each coefficient whenever its own argument is given and forwards all of them.",
+ "C18": "Also: what the npz reader reads reaches the constructor unmodified; byte strings and files are decoded with a flag that keeps bit depth and channels; attributes restored directly by load are written verbatim by save (including configuration methods).",
+ "C19": "Also: an altered selection in Image.subregion is a violation (shared C02.a/b).",
+ "C20": "Also (level other): index kinds are not mixed (matrix positions index matrix-ordered tables, Cartesian positions Cartesian-ordered vectors); CoordinateSystem agrees with the table (shared C01.b).",
+}
+COMMON = " Every property additionally requires that no function of its anchor modules writes process-wide mutable state (module-/class-level containers), except memos keyed injectively on everything the value depends on and never modified in place."
+
 NOT_YET = {}
 
 def main():
@@ -161,6 +184,7 @@ def main():
         pid = p["id"]
         if pid in CLAIMED:
             cat, tech, text, note = CLAIMED[pid]
+            text = text + (" " + ADDED[pid] if pid in ADDED else "") + COMMON
             checks.append({
                 "property_id": pid,
                 "quick_cmd": f"./check {pid} --tier quick",
@@ -168,7 +192,7 @@ def main():
                 "evidence_file": f"evidence/{pid}.json",
                 "replay_cmd_template": f"./check {pid} --replay {{path}}",
                 "engine": "sa",
-                "level_claimed": {"category": cat, "text": text, "design_ref": f"DESIGN.md section 3, {pid}"},
+                "level_claimed": {"category": cat, "text": text, "design_ref": f"DESIGN.md section 3, {pid}; section 7.5"},
                 "level_note": note,
                 "technique": tech,
             })
